@@ -7,7 +7,8 @@ CFG = dict(
                "merge_no_zero_sample), result passes CheckValid with ids 1..n (merge_valid), weights independent of input order "
                "(merge_perm), header rules (merge_headers, merge_period_max with its F25 _refuted twin, comments_dedup_is_union), "
                "the re-merge recursion stops after one extra pass (remerge_terminates), Compact returns a merge result unchanged, ids "
-               "and order included (compact_idempotent), the per-source memo tables are pure memoisation (merge_memo_equiv), Merge succeeds on compatible inputs (merge_total), key encodings injective (sample_key_injective, location_key_lines_injective). The model is tied to /repo's Merge by comparing COMPLETE result dumps (ids and order "
+               "and order included (compact_idempotent), the per-source memo tables are pure memoisation (merge_memo_equiv), Merge succeeds on compatible inputs (merge_total), key encodings injective (sample_key_injective, location_key_lines_injective). An end-to-end layer drives driver.PProf (command lines, sessions, web handlers) and judges the parsed-back -proto/-raw//download "
+               "outputs with the glue model M_MergeGlue (chunked_grab_conserves, fetch_base_subtracts). The model is tied to /repo's Merge by comparing COMPLETE result dumps (ids and order "
                "included) on 1.2k generated lists per quick run (60k thorough) and sampleKey byte for byte.",
     level_note="Identities never mention ids: frame = (binary = page-rounded size/offset/build-id-or-file, address - mapping start, "
                "[(function name, system name, file, start line), line, column] in inline order, folded). Not provable in an id model but evaluated on "
@@ -19,7 +20,9 @@ CFG = dict(
          "three-way, int64-wrap cancelling, adding + literal zero, cancel-and-revive; with both / no / string / numeric labels; as a one-element "
          "list through Merge and through p.Compact(), and in 2-3 input lists); histories (an input or an earlier RESULT that has been through Merge/Compact is edited in place -- Aggregate flags, "
          "attributes made alike or made different, random point edits -- and merged / compacted again; random sessions over live "
-         "profiles; every operation is judged on the dump taken immediately before it); systematic single-attribute pairs (61 "
+         "profiles; every operation is judged on the dump taken immediately before it); END TO END through driver.PProf (one-shot -proto/-raw command lines with option combinations, failing sources, "
+         "bases, 130+ sources; interactive sessions; web requests incl. /download; outputs parsed back and compared with the glue model "
+         "M_MergeGlue); systematic single-attribute pairs (61 "
          "attributes of mapping/function/line/location/label/num-label/stack x same-profile, two-profile, crossed, cancelling); header "
          "rule tables (times with zeros/negatives, periods, wrapping durations, comments), incompatible/empty/nil-period-type lists, "
          "GenProfile lists incl. a profile with itself or its negation, regression witnesses F1/F2/F24, finding F25; 100+ sampleKey byte "
@@ -33,7 +36,9 @@ CFG = dict(
                   "id memo tables are transcribed in M_MergeMemo and proved not to change the result (merge_memo_equiv)",
                   "locationKey.lines and sampleKey are modelled by the tuples they encode; their string encodings are transcribed (lines_key, "
                   "skey_bytes), proved injective (location_key_lines_injective, sample_key_injective) and compared with the real keys on every run"],
-    assumptions=["input profiles are valid (CheckValid) with unique ids; int64/uint64 fields are in range (Go types)",
+    assumptions=["end-to-end layer: symbolisation off, equal sample types/units across sources (CompatibilizeSampleTypes/ScaleProfiles = identity), periods "
+                 "below 2^53 (ScaleProfiles converts Period through float64), no drop/keep frames, no URL-like mapping files",
+                 "input profiles are valid (CheckValid) with unique ids; int64/uint64 fields are in range (Go types)",
                  "binary identity = Mapping.key's notion of the same binary (page-rounded size, offset, build id or else file)",
                  "Merge of >= 2 in-memory profiles with a nil PeriodType panics (compatible() dereferences it); Parse never produces "
                  "one, such lists are outside the statement's domain (modelled and compared, not judged)"],
